@@ -390,6 +390,9 @@ func rulesC09(c *Ctx) {
 	// timer callback that won the race, never on the path that returns the inner result
 	c.Rule("enclosing-timeout")
 	c07Race(c)
+	// … and whichever entry point started the execution: the async runner records execute's value and does nothing else
+	// (releasing the root context before the result is handed over cancels the winner's context)
+	executeAsyncRule(c)
 }
 
 func c09Loop(c *Ctx) {
@@ -930,6 +933,21 @@ func c09DelayBuilder(c *Ctx) {
 	ps := ev.Run(fn)
 	for _, p := range ps {
 		b := eventsWhere(p, func(e *Event) bool { return isCall(e, "BuilderWithDelayFunc") })
+		if len(b) == 0 && p.Exit == ExitReturn && len(p.Rets) == 1 {
+			// built without going through BuilderWithDelayFunc (both delegate to a newer constructor): what counts is
+			// the delay function the returned builder holds
+			if df := ev.LoadField(p.State, p.Rets[0], "delayFunc"); df != nil && df.Fn != nil {
+				okFn := true
+				for _, q := range ev.CallTerm(p.State, df, nil) {
+					if q.Exit != ExitReturn || q.Rets[0] != ev.Param(fn, fn.Params[0].Name()) {
+						okFn = false
+					}
+				}
+				if okFn {
+					continue
+				}
+			}
+		}
 		if p.Exit != ExitReturn || len(b) != 1 || b[0].Args[0].Fn == nil || p.Rets[0] != b[0].Res[0] {
 			ok = false
 			c.Fail(c.fn(fn), c.P.FuncPos(fn), "BuilderWithDelay(d) must be BuilderWithDelayFunc(func(…) { return d })", pathTrace(ev, p))
